@@ -18,7 +18,7 @@ macro "open_inv " h:ident : tactic => `(tactic|
     snap_nodup, snap_uniq, e0, e1, e2, pe, p1⟩, ⟨mi, rm, tn, jr, pd, jw⟩, ⟨rf, js, sc, tr, jf, jl, lf, pw, a, b, kn⟩, ⟨kb, kj, mo, d⟩⟩ := $h)
 
 /-- try to close a field from all fields of the invariant of the pre-state -/
-macro "close " h:ident : tactic => `(tactic| (open_inv $h; simp only [jobP, Phase.writing, Phase.done] at *; grind))
+macro "close " h:ident : tactic => `(tactic| (open_inv $h; simp only [jobP, Phase.writing, Phase.done, isUsed] at *; grind))
 
 macro "finish " h:ident : tactic => `(tactic| (constructor <;> first | (same $h) | (close $h) | (simp; done) | exact Disk.putSnap_nodup _ _ ($h).snap_nodup | exact Disk.delSnap_nodup _ _ ($h).snap_nodup | fail "invariant field not closed"))
 
